@@ -497,7 +497,9 @@ class Interp(object):
             raise AnalysisError('raise of non-exception %r at %s' % (v, norm(s)))
         v.site = s
         self.emit('raise', s, {'exc': v.exc, 'value': v})
-        raise AbsRaise(v, site=s, explicit=True)
+        e_ = AbsRaise(v, site=s, explicit=True)
+        e_.origin_fn = self.frames[-1].fi.qualname if self.frames else None
+        raise e_
 
     def st_Assert(self, s):
         v = self.eval(s.test)
